@@ -169,6 +169,11 @@ class C05(Spec):
                 res.append((k, d))
         return res
 
+    def model_ref_disagree(self, case, sonic, model):
+        # the transcribed vector UTF-8 validator said "valid" where the proved scalar specification says ill-formed:
+        # the model (hypothesis VecSound of Props/C13 utf8_width_irrelevant_partial) is wrong, no verdict
+        return any((m or {}).get("vecsound") == "0" for m in model.values())
+
     def model_line(self, case, sonic):
         # the model needs the block widths of the build that answered
         if case[0] not in ("place", "plain"):
